@@ -20,7 +20,7 @@ def Skips (arm : Arm) (s : StateV) (env : Env) : Prop :=
     arms after it are not consulted. -/
 theorem C17_first_arm_direct (s : StateV) (env env' : Env) (pre post : List Arm) (arm : Arm) (t : Target)
     (hpre : ∀ a ∈ pre, Skips a s env) (hm : armMatch arm s env = some env') (hb : arm.body = .direct t) :
-    stepArms s env (pre ++ arm :: post) = applyTarget env' t := by
+    stepArms s env (pre ++ arm :: post) = leave env (applyTarget env' t) := by
   induction pre with
   | nil => simp [stepArms, hm, hb]
   | cons a pre ih =>
@@ -33,7 +33,7 @@ theorem C17_first_arm_guarded (s : StateV) (env env' : Env) (pre post : List Arm
     (gs : List Guard) (g : Guard)
     (hpre : ∀ a ∈ pre, Skips a s env) (hm : armMatch arm s env = some env') (hb : arm.body = .guarded gs)
     (hg : firstGuard env' gs = .ok (some g)) :
-    stepArms s env (pre ++ arm :: post) = applyTarget env' g.target := by
+    stepArms s env (pre ++ arm :: post) = leave env (applyTarget env' g.target) := by
   induction pre with
   | nil => simp [stepArms, hm, hb, hg]
   | cons a pre ih =>
@@ -47,8 +47,8 @@ theorem C17_step_origin (s : StateV) (env : Env) (arms : List Arm) (r : StepR)
     (h : stepArms s env arms = .ok r) (hr : ∀ (x : Unit), r ≠ .stuck) :
     ∃ pre arm post env', arms = pre ++ arm :: post ∧ (∀ a ∈ pre, Skips a s env) ∧
       armMatch arm s env = some env' ∧
-      ((∃ t, arm.body = .direct t ∧ applyTarget env' t = .ok r) ∨
-       (∃ gs g, arm.body = .guarded gs ∧ firstGuard env' gs = .ok (some g) ∧ applyTarget env' g.target = .ok r)) := by
+      ((∃ t, arm.body = .direct t ∧ leave env (applyTarget env' t) = .ok r) ∨
+       (∃ gs g, arm.body = .guarded gs ∧ firstGuard env' gs = .ok (some g) ∧ leave env (applyTarget env' g.target) = .ok r)) := by
   induction arms with
   | nil => simp only [stepArms, Except.ok.injEq] at h; exact absurd h.symm (hr ())
   | cons a rest ih =>
@@ -83,6 +83,24 @@ theorem C17_step_origin (s : StateV) (env : Env) (arms : List Arm) (r : StepR)
             rcases List.mem_cons.1 hx with rfl | hx
             · exact Or.inr ⟨env', gs, hm, hb, hg⟩
             · exact h2 x hx
+
+/-- What an arm's pattern bound does not outlive the arm: the machine goes on with the environment the
+    step started from (its inputs), whichever arm was taken. -/
+theorem C17_bindings_do_not_outlive_arm (s : StateV) (env : Env) (arms : List Arm) (s' : StateV) (env'' : Env)
+    (h : stepArms s env arms = .ok (.moved s' env'')) : env'' = env := by
+  obtain ⟨pre, arm, post, env', _, _, _, h4⟩ := C17_step_origin s env arms _ h (fun _ => by intro hc; cases hc)
+  have key : ∀ (x : Except FErr StepR), leave env x = .ok (.moved s' env'') → env'' = env := by
+    intro x hx
+    cases x with
+    | error e => cases hx
+    | ok r =>
+      cases r with
+      | moved s1 e1 => simp only [leave, Except.ok.injEq, StepR.moved.injEq] at hx; exact hx.2.symm
+      | out v e1 => simp only [leave, Except.ok.injEq] at hx; cases hx
+      | stuck => simp only [leave, Except.ok.injEq] at hx; cases hx
+  rcases h4 with ⟨t, _, h5⟩ | ⟨gs, g, _, _, h5⟩
+  · exact key _ h5
+  · exact key _ h5
 
 /-- Among the guards of an arm the first one that holds wins: every guard before it
     evaluated to false. -/
